@@ -20,7 +20,7 @@ def run(tier, rep):
         r = run_tlc("MCMono", cfg, workers=12, xmx="16g", coverage=True, timeout=3000)
         if not tlc_ok(r, cfg):
             rep.violation(f"model:{cfg}:{r.violated}", {"trace": r.trace[-4:]})
-        for a in ("SeedStep", "PopStep", "EnsureStep"):
+        for a in ("Seed", "PopTo", "Ensure", "Emit", "Finish"):
             if r.coverage.get(a, 0) == 0:
                 raise ToolError(f"vacuity: Mono action {a} never taken")
         states += r.distinct
@@ -44,9 +44,20 @@ def run(tier, rep):
     rep.coverage["polymorphic_recursion_programs"] = len(pr)
     progs = fam_c07.programs(tier)
     cases, counts = famcheck.run_families("C07", rep, progs, "c07", goinvalid_is_violation=True, crash_is_violation=True)
-    rep.coverage["states"] += states
+    # ---- trace validation of the real worklist against Mono.tla's actions (hooks in mono.rs, MonoTrace.tla)
+    import monotrace, corpus, engine
+    tcases = [{"id": c["id"], "path": c["path"], "ident": c["ident"]} for c in cases]
+    tcases += [{"id": "corpus:" + c["name"], "path": c["src"], "ident": "corpus:" + c["name"]} for c in corpus.single_file_cases() + corpus.package_cases()]
+    prd = workdir("c07-polyrec-files")
+    tcases += [{"id": "polyrec:" + n, "path": engine.write_case(prd, n, t), "ident": "polymorphic-recursion:" + n} for n, t, inf in pr]
+    recs, mst = monotrace.validate(tcases, rep, "c07")
+    mst["self_test_corruptions_rejected"] = monotrace.self_test(recs)
+    rep.coverage["mono_trace"] = mst
+    if mst["with_generic_instances"] < 30 or mst["refused"] < 5 or mst["with_type_instances"] < 20:
+        raise ToolError(f"vacuity: mono traces too thin: {mst}")
+    rep.coverage["states"] += states + mst["states"]
     rep.coverage["transitions"] += trans
-    rep.coverage["traces_validated_against_impl"] = counts.get("agree", 0) + counts.get("differ", 0)
+    rep.coverage["traces_validated_against_impl"] = counts.get("agree", 0) + counts.get("differ", 0) + mst["programs"]
     rep.assumptions += famcheck.STD_ASSUMPTIONS
     if counts.get("agree", 0) < 40:
         raise ToolError("vacuity: fewer than 40 generic programs compared")
